@@ -21,20 +21,23 @@ META = {
 def run(ctx):
     lib = vlib.build_lib("asan")
     rep = vlib.build_harness(lib, "c01_replay", ["c01_replay.cpp"])
-    cfg = "MC_ArraySeq_quick" if ctx.quick else "MC_ArraySeq_thorough"
-    cases = os.path.join(ctx.tmp, "c01.cases")
-    r = ctx.model("ArraySeq", cfg, emit_to=cases, timeout=ctx.pick(600, 5400), xmx="6g", must_cover=ctx.quick)
+    # quick: 3 handles x 4 calls; thorough adds 2 handles x 6 calls (12.5 M transitions).  (3 handles x 5 calls = 21.7 M
+    # transitions cannot be emitted: TLC interns every printed string and its table overflows at about 33.5 M entries.)
+    cfgs = ["MC_ArraySeq_quick"] if ctx.quick else ["MC_ArraySeq_thorough", "MC_ArraySeq_thorough2"]
     ctx.exhaustive = True
     ctx.rule = ("one case per transition of the ArraySeq state graph (history of public calls + expected projected state); "
                 "non-trivial = history with >= 2 calls; distinct = distinct case lines (hash)")
-    ctx.replay(rep, cases, label="R/ArraySeq", timeout=ctx.pick(900, 5400))
-    os.unlink(cases)
+    for cfg in cfgs:
+        cases = os.path.join(ctx.tmp, "c01.cases")
+        ctx.model("ArraySeq", cfg, emit_to=cases, timeout=ctx.pick(600, 5400), xmx="6g", must_cover=ctx.quick)
+        ctx.replay(rep, cases, label="R/" + cfg, timeout=ctx.pick(900, 7200))
+        os.unlink(cases)
     # V: recorded random executions (long arrays, all growth boundaries) validated against the same actions
     rec = vlib.build_harness(lib, "c01_record", ["c01_record.cpp"])
     files = ctx.record(rec, ctx.pick(8, 48), ctx.pick(6000, 40000), "V/ArraySeq")
     ctx.validate_traces("Trace_ArraySeq", "Trace_ArraySeq", files, label="V/ArraySeq", timeout=ctx.pick(600, 3000))
     ctx.assumptions += [
-        "exhaustive within the constants of spec/%s.cfg; beyond them only the recorded random executions apply" % cfg,
+        "exhaustive within the constants of spec/%s.cfg; beyond them only the recorded random executions apply" % "+".join(cfgs),
         "memory errors/leaks are observed by ASan/LSan on the replayed executions, not decided by the model",
         "int arrays: elements created by resize() are assigned 0 by the driver before being read (they are indeterminate by design)",
     ]
